@@ -179,7 +179,7 @@ class MH(ProposalBasedSampler):
 
         # accept/reject
         u_theta = np.log(np.random.rand())
-        if (u_theta <= alpha) and (not np.isnan(target_eval_star)):
+        if (u_theta <= alpha) and (not np.isnan(target_eval_star)) and (not np.isinf(target_eval_star)): # (from a state of zero density the ratio is nan and alpha 0)
             x_next = x_star
             target_eval_next = target_eval_star
             acc = 1
